@@ -234,14 +234,16 @@ func (c *Ctx) c09Mem(pm *pairModel) {
 			}
 			nAcc++
 			// closure chain: the nearest enclosing function that is a withMailbox closure
-			g := fn
-			mode, in2 := "", false
-			for g != nil {
-				if m, ok := modes[g]; ok {
-					mode, in2 = m, true
-					break
+			// the nearest enclosing withMailbox closure, or (for a helper) the closures it
+			// is only ever reached from
+			mode := lockModeOf(p, fn, modes, 0)
+			in2 := mode != ""
+			if !in2 {
+				for g := fn; g != nil; g = g.Parent() {
+					if _, ok := modes[g]; ok {
+						in2 = true // mode "?"
+					}
 				}
-				g = g.Parent()
 			}
 			key := "mbox." + f.Name() + "@" + shortFn(fn)
 			if !in2 {
@@ -392,7 +394,11 @@ func (c *Ctx) c09Shared(pm *pairModel) {
 				return true
 			}
 		}
-		return false
+		return lockModeOf(p, fn, modes, 0) != ""
+	}
+	inEnforcer := func(fn *ssa.Function) bool {
+		ok, _ := p.OnlyReachedFrom(fn, func(g *ssa.Function) bool { return g == pm.enforcerLoop })
+		return ok
 	}
 	fns := pkgFuncs(p, "pkg/storage/mem")
 	st := msgT.Underlying().(*types.Struct)
@@ -451,7 +457,7 @@ func (c *Ctx) c09Shared(pm *pairModel) {
 		allEnforcer, allLocked := true, true
 		var offender acc
 		for _, a := range accs {
-			if eng.Outer(a.fn) != pm.enforcerLoop {
+			if eng.Outer(a.fn) != pm.enforcerLoop && !inEnforcer(a.fn) {
 				allEnforcer = false
 			}
 			if !inLocked(a.fn) {
